@@ -18,7 +18,8 @@
    repaired code and every clause is now proved at full strength, without the former premises. *)
 From Sdns Require Import Common.Base Gen.C19 C19.Model
   C19.Proofs_arith C19.Proofs_policy C19.Proofs_edns C19.Proofs_cache C19.Proofs_tree
-  Common.GoList C19.WireOpt C19.Proofs_wire C19.WireReq C19.Proofs_wirereq.
+  Common.GoList C19.WireOpt C19.Proofs_wire C19.WireReq C19.Proofs_wirereq C19.WirePacket C19.Proofs_wirepacket.
+From Sdns Require C05.Model.
 Open Scope N_scope.
 
 (* ---------------------------------------------------------------- translator ties *)
@@ -113,6 +114,19 @@ Print Assumptions all_client_options_stripped.
 Theorem upstream_request_has_one_opt : forall p client extra, count_opt (set_edns0 p client extra) = 1%nat.
 Proof. exact set_edns0_one_opt. Qed.
 Print Assumptions upstream_request_has_one_opt.
+
+(* WHOLE packets (over C05.Model.parse_wire, the model of Request.ParseWire whose pieces property C05
+   ties to the source: header gate, question-name loop, question fixed part, the single OPT): whatever
+   octets arrive, if the strict parser admits them the request is marked as carrying ECS exactly when an
+   option with code 8 lies in the OPT that follows the question; no OPT, no mark *)
+Theorem whole_packet_has_ecs_iff_option_present : forall raw f, C05.Model.parse_wire raw = Some f ->
+  (C05.Model.f_hasopt f = false /\ C05.Model.f_ecs f = false /\ C05.Model.f_qend f = C05.Model.blen raw) \/
+  (C05.Model.f_hasopt f = true /\
+   exists cs, pkt_codes (S (length raw)) raw (C05.Model.f_qend f + 11) (C05.Model.blen raw) = Some cs /\
+              C05.Model.f_ecs f = has_code8 cs /\ C05.Model.f_nsid f = existsb (N.eqb 3) cs /\
+              C05.Model.f_ka f = existsb (N.eqb 11) cs).
+Proof. exact packet_marks. Qed.
+Print Assumptions whole_packet_has_ecs_iff_option_present.
 
 (* the tree of a query that carried a subnet option in ANY OPT record is marked, forwarded or not *)
 Theorem client_ecs_marks_the_tree : forall b remote extra,
@@ -270,6 +284,55 @@ Theorem refresh_is_audience_neutral : forall c st qy up aged rf st' ob x,
 Proof. exact refresh_upstream_sees_no_subnet. Qed.
 Print Assumptions refresh_is_audience_neutral.
 
+(* ---------------------------------------------------------------- the byte path of the cache *)
+(* the wire twin of scoped_only_inside_scope.  Cache.serveWire answers a wire-born query from bytes
+   only when it carried NO subnet option (whatever the policy), only with an entry filed under the
+   shared key for the same question and CD bit, never one due for refresh ... *)
+Theorem byte_path_serves_shared_entries_to_plain_queries : forall c st qy aged ob,
+  serve_wire c st qy aged = Some ob ->
+  match q_opts qy with Some l => has_ecs l | None => false end = false /\
+  ob_src ob = 2 /\ ob_up ob = None /\ ob_stored ob = None /\ ob_refresh ob = None /\
+  exists e, In e st /\ ce_q e = q_name qy /\ ce_cd e = q_cd qy /\ ce_scope e = None /\ ce_ans e = ob_ans ob.
+Proof. exact serve_wire_sound. Qed.
+Print Assumptions byte_path_serves_shared_entries_to_plain_queries.
+
+(* ... so, along every history (entries filed under their audience), what comes from bytes is an
+   answer whose audience is everyone: an answer with an audience is never served from bytes *)
+Theorem byte_path_never_serves_an_audience_answer : forall c ops qy aged ob,
+  serve_wire c (fst (run_w c [] ops)) qy aged = Some ob ->
+  exists e, In e (fst (run_w c [] ops)) /\ ce_ans e = ob_ans ob /\ ce_q e = q_name qy /\ ce_cd e = q_cd qy /\
+            effective (policy_of (c_b c)) e = None.
+Proof. exact (fun c ops qy aged ob => bytes_serve_only_everyone c _ qy aged ob (run_w_inv c ops)). Qed.
+Print Assumptions byte_path_never_serves_an_audience_answer.
+
+Theorem subnet_bearing_query_is_never_answered_from_bytes : forall c st qy aged l,
+  q_opts qy = Some l -> has_ecs l = true -> serve_wire c st qy aged = None.
+Proof. exact subnet_query_never_from_bytes. Qed.
+Print Assumptions subnet_bearing_query_is_never_answered_from_bytes.
+
+(* the byte path refines the decoded body of the same call (same answer, same store), hence a history
+   with any mix of wire-born queries IS a history: every theorem above about run transfers to run_w *)
+Theorem byte_path_refines_the_decoded_body : forall c st qy up aged rf ob,
+  serve_wire c st qy aged = Some ob -> serve c st qy up aged rf = (st, ob).
+Proof. exact serve_wire_refines. Qed.
+Print Assumptions byte_path_refines_the_decoded_body.
+
+Theorem wire_histories_are_histories : forall c ops st, run_w c st ops = run c st (map wo_op ops).
+Proof. exact run_w_is_run. Qed.
+Print Assumptions wire_histories_are_histories.
+
+Theorem scoped_only_inside_scope_wire : forall c ops, run_ok c [] (map wo_op ops).
+Proof. exact run_w_ok. Qed.
+Print Assumptions scoped_only_inside_scope_wire.
+
+Example wire_history_example_thm :
+  snd (run_w overlong_cfg [] wire_ops) =
+  [ mk_obs 0 1 (Some (Some ecs_a)) (Some (Some (mk_pfx true 3405803776 24), 60000000000%Z)) None;
+    mk_obs 0 3 (Some None) (Some (None, 60000000000%Z)) None;
+    mk_obs 2 3 None None None;
+    mk_obs 1 1 None None None ].
+Proof. exact (proj1 wire_history_example). Qed.
+
 (* ---------------------------------------------------------------- tailored answers are never shared *)
 (* An answer whose authority option carries a non-zero SCOPE — usable or not — fetched with a
    forwarded subnet longer than /0, is always filed under a scoped key no longer than what was
@@ -373,6 +436,32 @@ Theorem byte_ladder_adds_nothing : forall pol t,
   tree_perms_wire pol true t = tree_perms pol (mk_dctx false false) t.
 Proof. exact wire_ladder_adds_nothing. Qed.
 Print Assumptions byte_ladder_adds_nothing.
+
+(* ---------------------------------------------------------------- RFC 9520 failure state *)
+(* A cached resolution failure is not a synthesised denial and carries no authority scope; it is filed
+   like an answer under (question, CD, request scope).  The SHARED failure entry answers a query only when
+   no request scope (or the /0 one) is derived for it — and then nothing of the client's address goes upstream for that
+   query, so the failed resolution it stands for is the very one this query would trigger (allowed by
+   the property for the same reason a SCOPE-0 answer is shared); a query whose subnet IS forwarded never
+   gets it; the byte ladder's failure rung adds nothing *)
+Theorem shared_failure_only_for_subnet_blind_queries : forall pol remote opts,
+  failure_consults_shared pol remote opts = true ->
+  forwarded pol (addr_from_slice_unmap remote) opts = [] \/
+  exists f, forwarded pol (addr_from_slice_unmap remote) opts = [OEcs f] /\ e_mask f = 0.
+Proof. exact shared_failure_only_when_subnet_blind. Qed.
+Print Assumptions shared_failure_only_for_subnet_blind_queries.
+
+Theorem forwarded_subnet_never_gets_shared_failure : forall pol remote l f,
+  new_opts pol (addr_from_slice_unmap remote) l = [OEcs f] -> e_mask f <> 0 ->
+  failure_consults_shared pol remote (Some l) = false.
+Proof. exact forwarded_subnet_skips_shared_failure. Qed.
+Print Assumptions forwarded_subnet_never_gets_shared_failure.
+
+Theorem byte_ladder_failure_rung_adds_nothing : forall pol remote opts rd,
+  wire_failure_gate rd (match opts with Some l => has_ecs l | None => false end) = true ->
+  failure_consults_shared pol remote opts = true.
+Proof. exact wire_failure_gate_refines. Qed.
+Print Assumptions byte_ladder_failure_rung_adds_nothing.
 
 (* ---------------------------------------------------------------- non-vacuity *)
 Example forwarded_example :
